@@ -90,8 +90,9 @@ class Ext:
         Ext Object (Type: 0x05, Data: 01 02 03)
         >>>
         """
-        # Application ext type should be 0 <= type <= 127
-        if not isinstance(type, int) or not (type >= 0 and type <= 127):
+        # Ext type is a signed 8-bit integer (negative types are reserved by
+        # the MessagePack specification, e.g. -1 for timestamps)
+        if not isinstance(type, int) or not (type >= -128 and type <= 127):
             raise TypeError("ext type out of range")
         # Check data is type bytes
         elif sys.version_info[0] == 3 and not isinstance(data, bytes):
@@ -591,7 +592,7 @@ def _unpack_ext(code, fp):
     else:
         raise Exception("logic error, not ext: 0x%02x" % ord(code))
 
-    return Ext(ord(_read_except(fp, 1)), _read_except(fp, length))
+    return Ext(struct.unpack("b", _read_except(fp, 1))[0], _read_except(fp, length))
 
 def _unpack_array(code, fp):
     if (ord(code) & 0xf0) == 0x90:
